@@ -197,24 +197,25 @@ def materialise(m, src, dst):
         con = sqlite3.connect(path)
         cur = con.cursor()
         t, c, i = m["t"], m["c"], m["i"]
+        new_name = m.get("n") or FRESH      # the new name of a naming mutation (sorts first / in the middle / last)
         if k == "drop_table":
             cur.execute('DROP TABLE "%s"' % t)
         elif k == "rename_table":
-            cur.execute('ALTER TABLE "%s" RENAME TO "%s"' % (t, FRESH))
+            cur.execute('ALTER TABLE "%s" RENAME TO "%s"' % (t, new_name))
         elif k == "add_table":
-            cur.execute('CREATE TABLE "%s" (x INTEGER)' % FRESH)
+            cur.execute('CREATE TABLE "%s" (x INTEGER)' % new_name)
         elif k == "drop_view":
             cur.execute('DROP VIEW "%s"' % t)
         elif k == "rename_view":
             sql = get_sql(path, "view", t)
             cur.execute('DROP VIEW "%s"' % t)
-            cur.execute(re.sub(r"(CREATE\s+VIEW\s+)(\[[^\]]+\]|\"[^\"]+\"|\S+)", r'\1"%s"' % FRESH, sql, count=1, flags=re.I))
+            cur.execute(re.sub(r"(CREATE\s+VIEW\s+)(\[[^\]]+\]|\"[^\"]+\"|\S+)", r'\1"%s"' % new_name, sql, count=1, flags=re.I))
         elif k == "add_view":
-            cur.execute('CREATE VIEW "%s" AS SELECT 1 AS x' % FRESH)
+            cur.execute('CREATE VIEW "%s" AS SELECT 1 AS x' % new_name)
         elif k == "drop_column":
             cur.execute('ALTER TABLE "%s" DROP COLUMN "%s"' % (t, c))
         elif k == "rename_column":
-            cur.execute('ALTER TABLE "%s" RENAME COLUMN "%s" TO "%s"' % (t, c, FRESH))
+            cur.execute('ALTER TABLE "%s" RENAME COLUMN "%s" TO "%s"' % (t, c, new_name))
         elif k == "add_column":
             cur.execute('ALTER TABLE "%s" ADD COLUMN "%s" INTEGER' % (t, FRESH))
         elif k == "drop_index":
@@ -227,7 +228,7 @@ def materialise(m, src, dst):
             used = [r[2] for r in cur.execute("PRAGMA index_info('%s')" % i).fetchall()]
             cur.execute('DROP INDEX "%s"' % i)
             if k == "rename_index":
-                new = re.sub(r"(CREATE\s+(UNIQUE\s+)?INDEX\s+)(\[[^\]]+\]|\"[^\"]+\"|\S+)", r'\1"%s"' % FRESH, sql, count=1, flags=re.I)
+                new = re.sub(r"(CREATE\s+(UNIQUE\s+)?INDEX\s+)(\[[^\]]+\]|\"[^\"]+\"|\S+)", r'\1"%s"' % new_name, sql, count=1, flags=re.I)
             elif k == "change_index_unique":
                 if re.match(r"\s*CREATE\s+UNIQUE", sql, re.I):
                     new = re.sub(r"UNIQUE\s+", "", sql, count=1, flags=re.I)
@@ -244,7 +245,7 @@ def materialise(m, src, dst):
             cur.execute(new)
         elif k == "add_index":
             col = cur.execute("PRAGMA table_info('%s')" % t).fetchall()[0][1]
-            cur.execute('CREATE INDEX "%s" ON "%s" ("%s")' % (FRESH, t, col))
+            cur.execute('CREATE INDEX "%s" ON "%s" ("%s")' % (new_name, t, col))
         else:
             con.close()
             return False
